@@ -44,6 +44,7 @@ type Obligation struct {
 	Output  string
 	Clause  *Clause
 	Replayed bool
+	Block   *ssa.BasicBlock
 	Cases   []string // incoming edge conditions of the obligation's block (for case splitting)
 	fc      *FnCtx
 }
@@ -93,6 +94,8 @@ type FnCtx struct {
 	esc      *escInfo
 	existing []existingRef
 	lemmasUsed []string
+	assertBlk []*ssa.BasicBlock
+	anc map[*ssa.BasicBlock]map[*ssa.BasicBlock]bool
 	curEdges []string
 	familyOf map[ssa.Value]*family
 	allocSite map[ssa.Value]string
@@ -152,6 +155,7 @@ func (fc *FnCtx) assert(f string) {
 		return
 	}
 	fc.asserts = append(fc.asserts, f)
+	fc.assertBlk = append(fc.assertBlk, fc.curBlock)
 }
 
 // assumeHere adds an assumption valid when control is at the current point.
@@ -176,7 +180,7 @@ func (fc *FnCtx) oblige(kind, label, cond string, pos token.Pos, cl *Clause) *Ob
 	if n := fc.occ[base]; n > 1 {
 		name = fmt.Sprintf("%s~%d", base, n)
 	}
-	ob := &Obligation{Fn: fc.name, Name: name, Kind: kind, Cond: cond, Guard: fc.curReach, Prefix: len(fc.asserts), Pos: pos, fc: fc, Clause: cl, Cases: fc.curEdges}
+	ob := &Obligation{Fn: fc.name, Name: name, Kind: kind, Cond: cond, Guard: fc.curReach, Prefix: len(fc.asserts), Pos: pos, fc: fc, Clause: cl, Cases: fc.curEdges, Block: fc.curBlock}
 	if cl != nil {
 		ob.Tags = cl.Tags
 		ob.Src = cl.Src
@@ -424,6 +428,10 @@ func (fc *FnCtx) freshVal(prefix string, t types.Type) Val {
 		}
 		comps[i] = fc.fresh(p, sorts[i])
 	}
+	// Representation normalisation: an unknown string is represented at offset 0 of its array (without loss
+	// of generality: strings are immutable values); an unknown slice is taken to start at offset 0 of its
+	// backing array (assumption: distinct unknown slices do not overlap at different offsets).
+	normaliseOffsets(t, comps)
 	v := mkVal(t, comps)
 	fc.assert(fc.typeInv(v))
 	return v
@@ -950,4 +958,53 @@ func (fc *FnCtx) oldRefs(v Val) string {
 		return and(parts...)
 	}
 	return "true"
+}
+
+func normaliseOffsets(t types.Type, comps []string) {
+	switch kindOf(t) {
+	case KStr, KSlice:
+		comps[1] = "0"
+	case KStruct:
+		st := t.Underlying().(*types.Struct)
+		for i := 0; i < st.NumFields(); i++ {
+			lo, hi, ft := fieldRange(t, i)
+			normaliseOffsets(ft, comps[lo:hi])
+		}
+	case KTuple:
+		tu := t.Underlying().(*types.Tuple)
+		for i := 0; i < tu.Len(); i++ {
+			lo, hi, ft := fieldRange(t, i)
+			normaliseOffsets(ft, comps[lo:hi])
+		}
+	}
+}
+
+// ancestors: blocks from which b is reachable in the loop-cut control-flow DAG (b included).  Assertions
+// generated in other blocks cannot concern an execution that reaches b and are left out of b's queries
+// (dropping hypotheses is always sound).
+func (fc *FnCtx) ancestors(b *ssa.BasicBlock) map[*ssa.BasicBlock]bool {
+	if fc.anc == nil {
+		fc.anc = map[*ssa.BasicBlock]map[*ssa.BasicBlock]bool{}
+	}
+	if a, ok := fc.anc[b]; ok {
+		return a
+	}
+	a := map[*ssa.BasicBlock]bool{}
+	stack := []*ssa.BasicBlock{b}
+	for len(stack) > 0 {
+		x := stack[len(stack)-1]
+		stack = stack[:len(stack)-1]
+		if a[x] {
+			continue
+		}
+		a[x] = true
+		for _, p := range x.Preds {
+			if fc.isBackEdge(p, x) {
+				continue
+			}
+			stack = append(stack, p)
+		}
+	}
+	fc.anc[b] = a
+	return a
 }
